@@ -2,6 +2,9 @@
 
 MC   spec/OverlayStream.tla (bufio + overlayProcessor, scale-free over equality runs) exhaustively at W=4,T=1:
      every content relation, every partition into writes, every flush / crash-resume point.
+TV   histories on ONE real overlay bowl (pwr/bowl/bowl_overlay.go entry writer: begun from scratch or from a saved
+     checkpoint, written in part, saved, abandoned, begun again, finalized, committed) over content that agrees
+     with the old file at a SHIFTED offset (dropped prefix, relocated padding, tiles): committed file = new.
 TV   real overlay writer sessions at the real constants (boundary run lengths, write sizes 1..>W, flushes,
      crashes resumed from reported offsets with stale bytes), overlay decoded by an independent framing
      parser, real Patch + truncate. TLC evaluates OverlayProp on the real stream / checkpoints / result
@@ -86,6 +89,26 @@ def run(tier):
         run.coverage["real_ops_checked"] = nops
         run.coverage["spec_drift"] = ndrift
         vlib.log("[tv] %d real sessions (%d acts, %d ops) validated, drift %d" % (total, acts, nops, ndrift))
+
+        # bowl level: histories on one real overlay bowl (begin / save / abandon / begin again / finalize / commit)
+        import pairs
+        nb = 192 if tier == "quick" else 6000
+        btotal = begins = 0
+        for tp, cnt, res in pairs.run_shards(binary, d, ["c14-bowl"], nb, "Trace_OverlayBowl", "Trace_OverlayBowl.cfg", "bowl", timeout=900 if tier == "quick" else 3300):
+            if res is None:
+                continue
+            btotal += cnt
+            begins += sum(x[1] for x in vlib.parse_tagged(res.prints, "STAT"))
+            for ln, clauses in vlib.parse_viol(res.prints):
+                c = vlib.get_line(tp, ln)
+                c["seed"] = run.seed
+                c["acts"] = c["acts"][:80]
+                run.violation({"clauses": clauses, "level": "bowl"}, c,
+                              "real overlay bowl violates %s on history %d (%s, old %d new %d bytes): %s %s"
+                              % (clauses, c["case"], c["desc"], c["oldlen"], c["newlen"], [(a["op"], a["n"]) for a in c["acts"] if a["op"] != "write"][:12], c["err"][:160]))
+        run.coverage["bowl_histories"] = btotal
+        run.coverage["traces_validated_against_impl"] = total + btotal
+        vlib.log("[tv] %d histories on the real overlay bowl (%d entry beginnings)" % (btotal, begins))
         return run.finish()
     finally:
         shutil.rmtree(d, ignore_errors=True)
